@@ -299,7 +299,15 @@ def render(spec: Spec, placement: str = 'root', odd_names: bool = False, with_te
                 kws += ", include_directories: include_directories('.')"
             out.append("%s = %s('%s', %s%s)" % (me, fn, tname(i, n), ', '.join(srcs), kws))
             if n.kind == 'E' and with_tests:
-                out.append("test('t_%s', %s)" % (me, me))
+                # the test also names (as argument / depends:) earlier targets that the executable itself does not use
+                targs = [nm(j, spec[j]) for j in range(i) if spec[j].kind in 'HSK' and where(j, spec[j]) == loc or spec[j].kind in 'HSK' and loc == 'root'][:1]
+                tdeps = [nm(j, spec[j]) for j in range(i) if spec[j].kind in 'LX'][:1]
+                extra = ''
+                if targs:
+                    extra += ', args: [%s]' % ', '.join(targs)
+                if tdeps:
+                    extra += ', depends: [%s]' % ', '.join(tdeps)
+                out.append("test('t_%s', %s%s)" % (me, me, extra))
         elif n.kind == 'X':
             (p, rel), = n.uses
             out.append("%s = custom_target('%s', output: '%s.txt', command: [%s], capture: true)" % (me, me, me, ref(p)))
